@@ -4,7 +4,10 @@ from ._write_common import run_common
 
 def run(ctx):
     q = ctx.tier == "quick"
-    run_common(ctx, "C01", ["SfProps.C01", "SfProps.C01Block"], stride=2 if q else 1, l1_scripts=250 if q else 2500)
+    run_common(ctx, "C01", ["SfProps.C01", "SfProps.C01Block", "SfProps.C01Aiff"], stride=2 if q else 1, l1_scripts=250 if q else 2500)
+    run_common(ctx, "C01", ["SfProps.C01", "SfProps.C01Block", "SfProps.C01Dwvw"], stride=2 if q else 1, l1_scripts=250 if q else 2500)
     if not getattr(ctx, "replay", None):
         from .. import blockcamp
         blockcamp.run(ctx, "C01", 160 if q else 1600)
+        from .. import dwvw
+        dwvw.run(ctx, "C01", 120 if q else 1200)
